@@ -53,8 +53,18 @@ def meta_maker(rng, counter):
         if k == "meta":
             out.append({"k": "meta"})
         elif k == "dep":
-            out.append({"k": "dep", "name": rng.choice(["da", "db", "dc", "dd"]), "version": rng.choice(["1.0", "1.9", "1.10", "2.0"]),
-                        "script": [{"src": "s%d.js" % counter[0]}]})
+            d = {"k": "dep", "name": rng.choice(["da", "db", "dc", "dd"]), "version": rng.choice(["1.0", "1.9", "1.10", "2.0"]),
+                 "script": [{"src": "s%d.js" % counter[0]}]}
+            src = rng.random()
+            if src < 0.3:
+                d["source"] = {"href": "https://cdn.example/" + d["name"]}
+            elif src < 0.5:
+                d["source"] = {"subdir": "some/dir"}
+            if rng.random() < 0.3:
+                d["stylesheet"] = {"href": "c%d.css" % counter[0]}
+            if rng.random() < 0.3:
+                d["head"] = [gen.TAG("title", gen.T("dh%d" % counter[0]))]
+            out.append(d)
         else:
             out.append({"k": "headc", "c": [gen.TAG("title", gen.T("hc%d" % rng.randint(1, 3)))]})
     return out
@@ -106,18 +116,35 @@ def check_case(ctx, base, points, makers, base_outs=None, route="ctor"):
 def build_by_route(base, points, makers, route):
     """Different ways for the metadata to arrive in the tree."""
     if route == "ctor":
-        return gen.build(insert(base, points, makers))
+        return gen.build_root(insert(base, points, makers))
     if route == "tf":
         wrapped = [[{"k": "tf", "ret": "list", "c": mk}] for mk in makers]
-        return gen.build(insert(base, points, wrapped))
-    live = gen.build(base)
+        return gen.build_root(insert(base, points, wrapped))
+    live = gen.build_root(base)
     order = sorted(zip(points, makers), key=lambda pm: (pm[0][0], pm[0][1]), reverse=True)
     for (path, idx), mk in order:
         node = live
         for p in path:
             node = (node.children if isinstance(node, ht.Tag) else node)[p]
         kids = [gen.build(m) for m in mk]
-        if route == "insert":
+        if route == "display":
+            # the REPL route: values displayed inside `with tag:` are appended (only possible at the end of a tag)
+            import sys
+            target = node.children if isinstance(node, ht.Tag) else node
+            if isinstance(node, ht.Tag) and idx == len(target) and node.prev_displayhook is None:
+                old = sys.displayhook
+                sys.displayhook = lambda v: None
+                try:
+                    with node:
+                        for k in kids:
+                            sys.displayhook(k)
+                finally:
+                    sys.displayhook = old
+                node.prev_displayhook = None  # allow several displayed batches into the same tag in this harness
+            else:
+                for k in reversed(kids):
+                    node.insert(idx, k)
+        elif route == "insert":
             for k in reversed(kids):
                 node.insert(idx, k)
         elif route == "slice":
@@ -134,13 +161,13 @@ def build_by_route(base, points, makers, route):
     return live
 
 
-ROUTES = ["ctor", "ctor", "ctor", "insert", "insert", "slice", "setitem", "tf"]
+ROUTES = ["ctor", "ctor", "ctor", "insert", "insert", "slice", "setitem", "tf", "display", "display"]
 
 
 def _check_case(ctx, base, points, makers, base_outs, route="ctor"):
     is_list = base["k"] == "list"
     if base_outs is None:
-        base_outs = renderings(gen.build(base), is_list)
+        base_outs = renderings(gen.build_root(base), is_list)
     r2 = insert(base, points, makers)
     obj2 = build_by_route(base, points, makers, route)
     ctx.state("arrival_routes", route)
@@ -217,9 +244,10 @@ def run(ctx):
                 base = lg.rand_layout_tree(rng, ids, rng.choice([1, 2, 2, 3, 4]), valid=rng.random() < 0.6, kinds_w=W,
                                            root_kind=rng.choice(["block", "inline"]), max_children=3)
         bi += 1
+        base = gen.unshare(base)  # positions are addressed by path: no node may sit at two paths
         pts = insertion_points(base)
         is_list = base["k"] == "list"
-        base_outs = renderings(gen.build(base), is_list)
+        base_outs = renderings(gen.build_root(base), is_list)
         n = len(pts)
         if n <= (10 if ctx.thorough else 8):
             subsets = itertools.chain.from_iterable(itertools.combinations(range(n), k) for k in range(0, n + 1))
